@@ -60,3 +60,12 @@ for _pid, _what in [('C28', 'inlining (internal procedures, marked subroutines, 
     claim(_pid, 'translation_validation',
           f'For every template of a stated finite family the real {_what} is applied to the freshly parsed program; original and result are interpreted symbolically and z3 decides, over all input values at the instance sizes, whether any observable (argument values, module variables, PRINT output, abort, trap) can differ; models are replayed with gfortran -fcheck=bounds.',
           TV_NOTE, 'translation validation: symbolic interpretation of original and transformed IR + SMT equivalence (z3), compiler replay', 'E-SMT', 'DESIGN.md#C28-C34')
+claim('C01', 'translation_validation',
+      'Every program of a corpus covering the constructs named by the property (plus every source of the transformation templates and programs whose assignments are filled from the C07 expression-string family) is parsed with the FP frontend, regenerated with fgen and parsed again; z3 decides whether the two IRs can differ observably for any input. The interpreter itself is validated on the same programs against gfortran with solver-chosen admissible inputs (quick: 1 seed, thorough: 5 seeds + all template sources).',
+      TV_NOTE + ' The frontend half (IR vs an independent meaning of the text) is solver-checked only for expressions (C07); for whole programs it is covered by the gfortran self-validation, i.e. by sampling.',
+      'translation validation of parse/fgen/parse by symbolic interpretation + SMT equivalence; interpreter self-validation against gfortran', 'E-SMT', 'DESIGN.md#C01')
+for _pid, _txt in [('C03', 'PARTIAL (behavioural half): after a semantically visible edit through the public API the conservative output is re-parsed and z3 proves it equivalent to the modified IR for every input; the verbatim-text half has no value domain and is not claimed.'),
+                   ('C16', 'PARTIAL (behavioural projection): attach/detach of pragmas, pragma regions and dataflow analysis (nested, functional, with raising bodies) leaves a unit whose meaning z3 proves equal to the original; node identity / placement statements are not claimed.'),
+                   ('C17', 'PARTIAL (behavioural projection): clones have the original meaning; editing one copy leaves the meaning of the other unchanged (z3 equivalence for every input); scope-chain / symbol-identity statements are not claimed.'),
+                   ('C18', 'PARTIAL (behavioural projection): pickle round trips of source files, modules and routines preserve the meaning for every input (z3 equivalence); equality/attachment statements are not claimed.')]:
+    claim(_pid, 'translation_validation', _txt, TV_NOTE, 'translation validation: symbolic interpretation + SMT equivalence (z3), compiler replay', 'E-SMT', 'DESIGN.md#C16-C18')
